@@ -195,6 +195,8 @@ type fedOpGen struct {
 	// @defer generation (C10): probability 1/deferEvery per selection set; 0 = never
 	deferEvery int
 	ndefer     int
+	// C03 extras: explicit null for a variable that has a default; interface selections wrapped in `... on Iface`
+	normExtras bool
 }
 
 // deferDirective: a fresh @defer directive text — plain, labelled, or with an `if` (literal true or a variable)
@@ -252,6 +254,21 @@ func (g *fedOpGen) wrapDefer(t *fedType, parts []string, depth int) []string {
 	return keep
 }
 
+func (g *fedOpGen) varName() string {
+	n := g.nvar
+	g.nvar++
+	if g.normExtras && n < 6 && g.r.Intn(2) == 0 {
+		name := string(rune('a' + n)) // the names variable extraction itself would choose
+		for _, d := range g.decls {
+			if strings.HasPrefix(d, "$"+name+":") {
+				return fmt.Sprintf("v%d", n)
+			}
+		}
+		return name
+	}
+	return fmt.Sprintf("v%d", n)
+}
+
 func (g *fedOpGen) argValue(argName, argType string, universeHint func(string) string) string {
 	var lit string
 	var val any
@@ -264,26 +281,30 @@ func (g *fedOpGen) argValue(argName, argType string, universeHint func(string) s
 		lit, val = fmt.Sprintf("%q", t), t
 	default:
 		v := universeHint(argName)
+		if g.normExtras && g.r.Intn(5) == 0 {
+			v = pick(g.r, []string{"a", "b"}) // collides with the literals of `term`
+		}
 		lit, val = fmt.Sprintf("%q", v), v
 	}
 	switch g.r.Intn(4) {
 	case 0: // variable, provided
-		name := fmt.Sprintf("v%d", g.nvar)
-		g.nvar++
+		name := g.varName()
 		g.decls = append(g.decls, "$"+name+": "+argType)
 		g.vars[name] = val
 		g.feats["arg:variable"] = true
 		return "$" + name
 	case 1: // variable with a default, not provided
-		name := fmt.Sprintf("v%d", g.nvar)
-		g.nvar++
+		name := g.varName()
 		g.decls = append(g.decls, "$"+name+": "+argType+" = "+lit)
 		g.feats["arg:variableDefault"] = true
+		if g.normExtras && !strings.HasSuffix(argType, "!") && g.r.Intn(3) == 0 {
+			g.vars[name] = nil // an explicit null wins over the default
+			g.feats["arg:variableDefaultButNull"] = true
+		}
 		return "$" + name
 	case 2: // a nullable variable the client declares but does not provide: the argument stays absent (schema default applies)
 		if !strings.HasSuffix(argType, "!") {
-			name := fmt.Sprintf("v%d", g.nvar)
-			g.nvar++
+			name := g.varName()
 			g.decls = append(g.decls, "$"+name+": "+argType)
 			if g.r.Intn(3) == 0 {
 				g.vars[name] = nil // … or provides an explicit null
@@ -370,6 +391,19 @@ func (g *fedOpGen) selection(typeName string, depth int, hint func(string) strin
 		}
 		parts = append(parts, p)
 	}
+	if g.normExtras && t.Kind == "OBJECT" && g.r.Intn(6) == 0 {
+		for _, it := range g.s.Types {
+			if it.Kind == "INTERFACE" && containsStr(it.Possible, t.Name) && len(it.Possible) > 1 {
+				var nested []string
+				for _, pt := range it.Possible {
+					nested = append(nested, "... on "+pt+" { __typename id }")
+				}
+				parts = append(parts, "... on "+it.Name+" { "+strings.Join(nested, " ")+" }")
+				g.feats["sel:interfaceFragmentInObject"] = true
+				break
+			}
+		}
+	}
 	if t.Kind == "INTERFACE" {
 		for _, pt := range t.Possible {
 			if g.r.Intn(2) == 0 {
@@ -402,6 +436,10 @@ func (g *fedOpGen) selection(typeName string, depth int, hint func(string) strin
 		return "{ ..." + name + " }"
 	}
 	parts = g.wrapDefer(t, parts, depth)
+	if g.normExtras && t.Kind == "INTERFACE" && g.r.Intn(3) == 0 {
+		g.feats["sel:interfaceWrapped"] = true
+		return "{ ... on " + t.Name + " { " + strings.Join(parts, " ") + " } }"
+	}
 	return "{ " + strings.Join(parts, " ") + " }"
 }
 
@@ -410,7 +448,11 @@ func fedGenOperation(r *rand.Rand, s *fedSchema, u *fedUniverse) (string, []byte
 }
 
 func fedGenOperationDefer(r *rand.Rand, s *fedSchema, u *fedUniverse, deferEvery int) (string, []byte, map[string]bool) {
-	g := &fedOpGen{r: r, s: s, vars: map[string]any{}, feats: map[string]bool{}, budget: 14 + r.Intn(20), deferEvery: deferEvery}
+	return fedGenOperationX(r, s, u, deferEvery, false)
+}
+
+func fedGenOperationX(r *rand.Rand, s *fedSchema, u *fedUniverse, deferEvery int, normExtras bool) (string, []byte, map[string]bool) {
+	g := &fedOpGen{r: r, s: s, vars: map[string]any{}, feats: map[string]bool{}, budget: 14 + r.Intn(20), deferEvery: deferEvery, normExtras: normExtras}
 	hint := func(arg string) string {
 		// an existing key value most of the time
 		var cands []string
